@@ -271,11 +271,14 @@ def traversal_bool_parent(defined_with: int, walk_with: int, value: bool, order:
     visited = []
     for cfg in builder:
       visited.append(cfg.name)
-      builder.choose_value(chosen if cfg.name == 'flag' else 0.5)
+      # falsy choices (False, 0.0) are values like any other: they must be recorded, not read as "skip"
+      builder.choose_value(chosen if cfg.name == 'flag' else (0.0 if cfg.name == 'z' else 0.5))
       if len(visited) > 6:
         break
     want = sorted(['flag', 'z'] + (['rate'] if value else []))
     ok = sorted(visited) == want
+    got = builder.parameters.as_dict()
+    ok = ok and sorted(got) == want and got.get('z') == 0.0 and str(got.get('flag')) == str(value)
   reach('traversal_bool')
   return finish(bool(ok), (defined_with, walk_with, value, order))
 
